@@ -1,6 +1,7 @@
 package sym
 
 import (
+	"crypto/sha256"
 	"fmt"
 	"go/ast"
 	"go/token"
@@ -10,12 +11,15 @@ import (
 	"sort"
 	"strings"
 
+	"golang.org/x/tools/go/packages"
+
 	"govc/smt"
 	"govc/spec"
 	"govc/sx"
 )
 
 type verifier struct {
+	pkg            *packages.Package
 	e              *Engine
 	sp             *spec.File
 	modular        bool
@@ -40,6 +44,9 @@ type Obligation struct {
 	Tags    []string
 	Text    string
 	Queries []*smt.Query
+	Finding string // name of the known finding whose region this obligation excludes ("" = the full clause)
+	Full    string // for an .except obligation: name of the full obligation
+	NoExits bool   // canary only: the function had no normal exit at all
 }
 
 // ParamInfo describes a parameter of the function under verification for replay.
@@ -48,6 +55,11 @@ type ParamInfo struct {
 }
 
 type FuncReport struct {
+	File        string // source file of the function
+	Line        int
+	SrcHash     string // sha256 of the function's source text
+	Clauses     int
+	Trusted     bool
 	Results     []string // Go result types
 	Params      []ParamInfo
 	Exported    bool
@@ -113,6 +125,17 @@ func (v *verifier) finish() {
 func (v *verifier) envAt(st *State, names []string, vals []Val) *spec.Env {
 	env := spec.NewEnv(v.sp, v.e.Structs)
 	env.Lists = v.e.Lists
+	if v.pkg != nil {
+		scope := v.pkg.Types.Scope()
+		env.Lookup = func(name string) (spec.TV, bool) {
+			if c, ok := scope.Lookup(name).(*types.Const); ok {
+				if cv, ok := constVal(types.TypeAndValue{Type: c.Type(), Value: c.Val()}); ok {
+					return cv.TV, true
+				}
+			}
+			return spec.TV{}, false
+		}
+	}
 	for i, n := range names {
 		if i < len(vals) && vals[i].T != nil {
 			env.Vars[n] = vals[i].TV
@@ -179,7 +202,9 @@ func (e *Engine) VerifyFunc(pkgPath, key string, modular bool) (rep *FuncReport,
 	fs := sp.Funcs[key]
 	decl := e.funcs[fn]
 	if fs.Trusted {
-		return &FuncReport{Func: pkg.Types.Name() + "." + key + " (trusted, not verified)"}, nil
+		r := &FuncReport{Func: pkg.Types.Name() + "." + key, Trusted: true, Clauses: len(fs.Clauses)}
+		r.File, r.Line, r.SrcHash = e.srcInfo(pkg, decl)
+		return r, nil
 	}
 	for _, pp := range e.Pkgs {
 		if e.Specs[pp.PkgPath] == nil {
@@ -198,7 +223,7 @@ func (e *Engine) VerifyFunc(pkgPath, key string, modular bool) (rep *FuncReport,
 	}
 	e.consts = nil
 	e.fresh = 0
-	v := &verifier{e: e, sp: sp, modular: modular, obls: map[string]*Obligation{}, explicitFaults: fs.Nofault}
+	v := &verifier{e: e, sp: sp, modular: modular, obls: map[string]*Obligation{}, explicitFaults: fs.Nofault, pkg: pkg}
 	base := pkg.Types.Name() + "." + key
 
 	names, objs := paramNames(decl, pkg.TypesInfo)
@@ -236,6 +261,12 @@ func (e *Engine) VerifyFunc(pkgPath, key string, modular bool) (rep *FuncReport,
 	for _, c := range fs.Clauses {
 		if c.Kind == "requires" {
 			v.reqs = append(v.reqs, v.pre.Tr(c.E).T)
+		}
+	}
+	if ast.IsExported(fn.Name()) && decl.Recv == nil {
+		// package invariants hold on entry of every exported method (induction over call histories)
+		for _, inv := range sp.Invs {
+			v.reqs = append(v.reqs, v.pre.Tr(inv.Body).T)
 		}
 	}
 	if fs.Nofault && fs.Given != nil {
@@ -281,9 +312,23 @@ func (e *Engine) VerifyFunc(pkgPath, key string, modular bool) (rep *FuncReport,
 			for _, g := range smt.SplitGoal(goal) {
 				v.add(fmt.Sprintf("%s#ensures%d", base, c.Ord), c.Tags, c.Text, v.query(ex.St, nil, g))
 			}
+			if c.Finding != "" {
+				// the same clause outside the region of the known finding (region is read in the pre-state)
+				notRegion := sx.Not(v.pre.Tr(c.Region).T)
+				name := fmt.Sprintf("%s#ensures%d.except.%s", base, c.Ord, c.Finding)
+				for _, g := range smt.SplitGoal(goal) {
+					v.add(name, c.Tags, "outside region of "+c.Finding+": "+c.Text, v.query(ex.St, []*sx.T{notRegion}, g))
+				}
+				v.obls[name].Finding = c.Finding
+				v.obls[name].Full = fmt.Sprintf("%s#ensures%d", base, c.Ord)
+			}
+		}
+		if fs.Pure {
+			g := sx.And(sx.EqT(ex.St.store, sx.Atom("store0")), sx.Bool(!ex.St.dirty && len(ex.St.notifs.Items) == 0 && ex.St.notifs.Base == "notifs0"))
+			v.add(base+"#pure", nil, "pure: storage and ghost logs unchanged", v.query(ex.St, nil, g))
 		}
 		// package invariants on exported functions
-		if ast.IsExported(fn.Name()) {
+		if ast.IsExported(fn.Name()) && decl.Recv == nil {
 			for _, inv := range sp.Invs {
 				goal := env.Tr(inv.Body).T
 				for _, g := range smt.SplitGoal(goal) {
@@ -294,6 +339,10 @@ func (e *Engine) VerifyFunc(pkgPath, key string, modular bool) (rep *FuncReport,
 		// canary: false must not be provable
 		v.add(base+"#canary", nil, "false (must fail)", v.query(ex.St, nil, sx.Bool(false)))
 	}
+	if len(normal) == 0 {
+		v.add(base+"#canary", nil, "false (must fail)", v.query(st, nil, sx.Bool(true)))
+		v.obls[base+"#canary"].NoExits = true
+	}
 	if fs.Nofault {
 		for _, ex := range exits {
 			if ex.Fault {
@@ -303,6 +352,11 @@ func (e *Engine) VerifyFunc(pkgPath, key string, modular bool) (rep *FuncReport,
 	}
 	v.finish()
 	rep = &FuncReport{Func: base, Exits: len(normal), FaultExits: len(exits), Exported: ast.IsExported(fn.Name()) && decl.Recv == nil, Recv: decl.Recv != nil}
+	rep.File, rep.Line, rep.SrcHash = e.srcInfo(pkg, decl)
+	rep.Clauses = len(fs.Clauses)
+	for _, l := range fs.Loops {
+		rep.Clauses += len(l.Invs)
+	}
 	for i := 0; i < fn.Type().(*types.Signature).Results().Len(); i++ {
 		rep.Results = append(rep.Results, fn.Type().(*types.Signature).Results().At(i).Type().String())
 	}
@@ -319,12 +373,23 @@ func (e *Engine) VerifyFunc(pkgPath, key string, modular bool) (rep *FuncReport,
 	return rep, nil
 }
 
+// srcInfo returns file, line and SHA-256 of the source text of a function declaration.
+func (e *Engine) srcInfo(pkg *packages.Package, decl *ast.FuncDecl) (string, int, string) {
+	pos := pkg.Fset.Position(decl.Pos())
+	end := pkg.Fset.Position(decl.End())
+	b, err := os.ReadFile(pos.Filename)
+	if err != nil || end.Offset > len(b) {
+		return pos.Filename, pos.Line, ""
+	}
+	return pos.Filename, pos.Line, fmt.Sprintf("%x", sha256.Sum256(b[pos.Offset:end.Offset]))
+}
+
 // applyContract replaces a call by the callee's contract.
 func (e *Engine) applyContract(fr *frame, st *State, fn *types.Func, decl *ast.FuncDecl, fs *spec.FuncSpec, args []Val, k func(st *State, rets []Val)) {
 	v := fr.ver
 	calleeSp := e.Specs[fn.Pkg().Path()]
 	names, _ := paramNames(decl, e.fpkg[fn].TypesInfo)
-	cv := &verifier{e: e, sp: calleeSp}
+	cv := &verifier{e: e, sp: calleeSp, pkg: e.fpkg[fn]}
 	pre := cv.envAt(st, names, args)
 	base := fr.pkg.Types.Name() + "." + specKey(fr.fn)
 	for _, c := range fs.Clauses {
@@ -381,6 +446,9 @@ func (e *Engine) applyContract(fr *frame, st *State, fn *types.Func, decl *ast.F
 		}
 		var cond spec.Expr
 		body := c.E
+		if c.Finding != "" { // a clause with a known finding is assumed only outside the finding's region
+			body = &spec.EBinary{Op: "==>", X: &spec.EUnary{Op: "!", X: &spec.EOld{X: c.Region}}, Y: body}
+		}
 		if b, ok := body.(*spec.EBinary); ok && b.Op == "==>" {
 			cond, body = b.X, b.Y
 		}
@@ -673,7 +741,23 @@ func (e *Engine) VerifyLemmas(pkgPath string) *FuncReport {
 	env := spec.NewEnv(sp, e.Structs)
 	env.Lists = e.Lists
 	for _, l := range sp.Lemmas {
-		v.add("lemma."+l.Name, l.Tags, l.Name, v.query(st, nil, env.Tr(l.Body).T))
+		text := l.Name
+		if l.Text != "" {
+			text = l.Name + ": " + l.Text
+		}
+		v.add("lemma."+l.Name, l.Tags, text, v.query(st, nil, env.Tr(l.Body).T))
+		if l.Finding != "" {
+			body := l.Body
+			if q, ok := body.(*spec.EQuant); ok && q.Forall {
+				body = &spec.EQuant{Forall: true, Vars: q.Vars, Triggers: q.Triggers, Body: &spec.EBinary{Op: "==>", X: &spec.EUnary{Op: "!", X: l.Region}, Y: q.Body}}
+			} else {
+				body = &spec.EBinary{Op: "==>", X: &spec.EUnary{Op: "!", X: l.Region}, Y: body}
+			}
+			name := "lemma." + l.Name + ".except." + l.Finding
+			v.add(name, l.Tags, "outside region of "+l.Finding+": "+text, v.query(st, nil, env.Tr(body).T))
+			v.obls[name].Finding = l.Finding
+			v.obls[name].Full = "lemma." + l.Name
+		}
 	}
 	v.finish()
 	rep := &FuncReport{Func: "lemmas of " + pkgPath}
